@@ -251,6 +251,30 @@ def check_reader(ctx, crate, b, limited=True, rule="R6.2"):
                           instance=f"{who}: every path from {kind} into `{b.local_name(acc)}` (line {ln}) to Ok crosses check_limit({b.local_name(acc)}) == Ok")
             ctx.check(bool(checks) or not events, rule, b.loc(), f"{who}|checks|{b.local_name(acc)}", f"{who}: no limit check on the accumulator `{b.local_name(acc)}`", nontrivial=False)
     ctx.floor(rule, f"{who}: data-adding events on returned accumulators", n_paths, 3)
+    # exhaustion: a body is complete only when the stream reported its end — every Ok return is dominated by the None edge
+    # of a match on an item obtained from the stream (not by an edge that a Some(..) item can also take)
+    none_targets = set()
+    for sbb, blk in enumerate(b.blocks):
+        if "switch" not in blk["t"]:
+            continue
+        atom = dt.switch_atom(b, sbb)
+        if atom[0] != "discr":
+            continue
+        pty = dt.place_ty(b, F, atom[1]) or {}
+        if ty_adt(pty) != "core::option::Option":
+            continue
+        if not any(dt.derives_from_call(b, {"cp": atom[1]}, ibb, vt) for ibb, _ in item_calls):
+            continue
+        tmap = dict((v, x) for v, x in blk["t"]["targets"])
+        # Option has two variants: the None edge is the explicit 0 target, or the otherwise edge when only Some (1) is listed
+        tg = tmap.get(0) if 0 in tmap else (blk["t"]["otherwise"] if set(tmap) == {1} else None)
+        some_tg = tmap.get(1) if 1 in tmap else (blk["t"]["otherwise"] if set(tmap) == {0} else None)
+        if tg is not None and tg != some_tg and set(cfg.pred[tg]) == {sbb}:
+            none_targets.add(tg)
+    for oi, (okbb, _, s) in enumerate(sorted(oks, key=lambda o: o[2]["ln"])):
+        ok = any(cfg.dominates(tg, okbb) for tg in none_targets)
+        ctx.check(ok, rule, b.loc(s["ln"]), f"{who}|exhausted|ok#{oi}", f"{who}: an Ok return (line {s['ln']}) is reachable without the stream having reported its end (None): a body could be cut short after an item that merely looks final",
+                  instance=f"{who}: Ok at line {s['ln']} only after the stream returned None")
     # completeness of reassembly: every item obtained is bound to / appended to an accumulator or is the end marker
     # stream errors: item results are only consumed through `?`
     for ibb, t in item_calls:
